@@ -7,18 +7,18 @@ AGG_TRUST = ["sort.SliceStable is a correct stable sort (modelled by List.mergeS
 
 PROPS = {
     "C03": {
-        "lean": ["PP.Props.C03", "PP.Props.CLI", "PP.Props.C09b", "PP.Tie.Scan", "PP.Tie.Reader"],
+        "lean": ["PP.Props.C03", "PP.Props.CLI", "PP.Props.C09b", "PP.Tie.Scan", "PP.Tie.Reader", "PP.Tie.Translated"],
         "what": "Total robustness: scan_safe (an invariant tying the 19 scanner states to the structure the Go code indexes into; from it no line, for any classifier outcome, reaches a nil dereference, an index panic or the explicit panic()), scan_first_flags, funcInit_no_slice (Func.Init's slice expressions stay in range for every symbol), scanL_no_panic / scanB_no_panic / scanSnapshot_no_panic (whole loop, every delivery), scanB_fuel + scanSnapshot_total (termination: one line per iteration), process_terminates (the command's repeated-scan loop ends for every input, never panics, fuel input length + 2), resume_terminates, scan_calls_le_lines, aggregate_total (merge and less never index out of range, every level), parseArgs_wf / scanL_wf (every parsed argument is well-formed - the hypothesis of C05/C12); harness: corpus of past crashers + grammar-aware mutants + all line-kind sequences, each scanned repeatedly, aggregated at all levels, rendered as text and HTML and run through process() under recover with a time bound.",
         "partial": "panic-freedom and running time of Go's regexp, html/template, fmt and go/parser are not proved (they are exercised by the mutation stream only); linear wall-clock time is supported by step counts (one scan per line, one fill per delivered chunk) and a doubling measurement, not by a theorem about the Go runtime.",
         "trusted": ["regexp, html/template, fmt, go/parser do not panic (exercised, not modelled)", "io.Reader contract"],
     },
     "C04": {
-        "lean": ["PP.Props.C04", "PP.Tie.Agg"],
+        "lean": ["PP.Props.C04", "PP.Tie.Agg", "PP.Tie.Translated"],
         "what": "Aggregation is a partition that conserves goroutines: theorems agg_ids_perm, agg_ids_sorted_nonempty, agg_ids_disjoint, agg_first_iff, agg_one_first for every order oracle, level and snapshot; harness: direct partition oracle on the implementation + model/implementation bucket correspondence under three iteration orders.",
         "trusted": AGG_TRUST,
     },
     "C05": {
-        "lean": ["PP.Props.C05", "PP.Tie.Agg"],
+        "lean": ["PP.Props.C05", "PP.Tie.Agg", "PP.Tie.Translated"],
         "what": "Buckets are exactly the similarity classes: similar_iff_key (equivalence), merge stays in class under well-formedness, same_bucket_iff, partition_refines, partition_order_independent; harness: reference partition by an independently written canonical key, permutation independence, level refinement.",
         "trusted": AGG_TRUST,
         "assumptions": ["goroutine ids distinct", "arguments well-formed (a too-large '_' argument carries no value/pointer flag/name), which the parser establishes"],
@@ -35,18 +35,18 @@ PROPS = {
         "trusted": ["io.Writer never fails (writer errors are outside the property)", "io.MultiReader(suffix, rest) delivers suffix then rest (used by the resume protocol)"],
     },
     "C13": {
-        "lean": ["PP.Props.C13", "PP.Tie.Agg"],
+        "lean": ["PP.Props.C13", "PP.Tie.Agg", "PP.Tie.Translated"],
         "what": "Bucket ordering contract: Signature.less / Stack.less are strict weak orders on all signatures (irrefl, asymm, trans, incomparability transitive), never index out of range, stdlib-only stacks sort last; harness: order laws on all pairs/triples of a universe on the implementation, bucket order oracle, correspondence.",
         "trusted": AGG_TRUST,
     },
     "C06": {
-        "lean": ["PP.Props.C06", "PP.Props.C15", "PP.Tie.Agg", "PP.Tie.Globals"],
+        "lean": ["PP.Props.C06", "PP.Props.C15", "PP.Tie.Agg", "PP.Tie.Globals", "PP.Tie.Translated"],
         "what": "Determinism: aggregate_oracle_indep (the buckets, their order and merged signatures do not depend on map iteration order, for every pair of order oracles), bucket_contents_oracle_indep, aggregate_sorted_unique (nor on the stable-sort algorithm), nameTable is a function of the snapshot (C15 lemmas); pins: no function assigns to a package-level variable; harness: repeated execution in one process and across processes on inputs biased to comparator ties and nested roots, byte comparison of buckets, console text and HTML (time masked).",
         "trusted": AGG_TRUST + ["text/template ranges over maps in sorted key order", "no goroutines are started by the library (checked by reading; covered by C14's race runs)"],
         "assumptions": ["at most one goroutine is flagged first (what the scanner produces: scan_first_flags)", "arguments well-formed (parse_wf)"],
     },
     "C12": {
-        "lean": ["PP.Props.C12", "PP.Tie.Agg"],
+        "lean": ["PP.Props.C12", "PP.Tie.Agg", "PP.Tie.Translated"],
         "what": "A bucket's signature generalises its members: bucket_sleep_range (exact min/max), bucket_locked_iff_any, bucket_state_creator_frames, bucket_fields_from_first_member, flat_same_length, arg_unchanged_if_common, arg_star_if_differs, no_partial_value, exact_levels_no_star — for every arrival order and map order; harness: generalisation recomputed from the implementation's own snapshot and bucket ids.",
         "trusted": AGG_TRUST,
         "assumptions": ["goroutine ids distinct", "arguments well-formed where the key must stay similar to its members"],
@@ -99,7 +99,7 @@ PROPS["C20"] = {
 
 
 PROPS["C14"] = {
-    "lean": ["PP.Props.C14", "PP.Tie.Alias", "PP.Tie.Globals"],
+    "lean": ["PP.Props.C14", "PP.Tie.Alias", "PP.Tie.Globals", "PP.Tie.Translated"],
     "what": "Immutability under aggregation, on an explicit-heap (aliasing) model of Args.merge / Call.merge / Stack.merge / Signature.merge / Aggregate in which bucket keys start as shallow copies sharing every slice with the snapshot: merge_frame and aggregate_frame (every cell that existed before the call is unchanged after it - all writes go to cells allocated during the call - for every heap, every sharing, every map-order oracle, no hypotheses), snapshot_unchanged / snapshot_unchanged_seq (the goroutines read back from the heap are equal before and after any sequence of aggregations at any levels), merge_refines / aggregate_refines (the heap version computes exactly the functional model's buckets, so every other theorem applies to it), aggregate_twice; the buggy in-place variant is shown (decide) to violate the frame property. Pins: the extracted write set of every function reachable from Aggregate, ToHTML and the console writers contains no write through a receiver or caller-supplied argument; no function assigns to a package-level variable; the library starts no goroutines. Harness: random histories of Aggregate/ToHTML/console rendering on one snapshot with deep equality after every step and equality with a fresh snapshot, the same from 8 goroutines on a shared snapshot, and a separately built -race program (16 goroutines sharing snapshot and Opts).",
     "partial": "data races are a notion of the Go memory model that the Lean model cannot exhibit: the race-detector runs are evidence, not theorems; rendering is covered by the pinned write set and the deep-equality histories, not by a heap model of html/template.",
     "trusted": ["the race detector (for the concurrency half)", "html/template and fmt do not write through their arguments"],
